@@ -115,6 +115,14 @@ FAMILIES = {
         sharing=False,
         runs={"quick": [dict(mode="bfs", max_nodes=4)], "thorough": [dict(mode="bfs", max_nodes=5)]},
         shards=[["cached"], ["coalesce"]], shard_defs={"cached": "SK_cached", "coalesce": "SK_coalesce"}),
+    "dispatch": dict(
+        consts=dict(Raises="NoRaises", Kinds="FD_Kinds", Paths="FD_Paths", Consts="FD_Consts", Tmpls="None0",
+                    Fns="None0", Bodies="FD_Bodies", DispVals="FD_Disp", Preds="None0", Presets="None0",
+                    MapPaths="None0", Leaves="FD_Leaves", Cbs="FD_Cbs"),
+        sharing=False, hist=2, bfs_consts=dict(Kinds="FD_KindsB", Cbs="FD_CbsB", Leaves="FD_LeavesB"),
+        runs={"quick": [dict(mode="bfs", max_nodes=4), dict(mode="sim", max_nodes=6, min_nodes=3, num=16000, depth=26, procs=8, sharing=True)],
+              "thorough": [dict(mode="bfs", max_nodes=5), dict(mode="sim", max_nodes=7, min_nodes=3, num=80000, depth=32, procs=12, sharing=True)]},
+        shards=[["ds"]], shard_defs={"ds": "SK_ds"}),
     "options": dict(
         consts=dict(Raises="NoRaises", Kinds="FO_Kinds", Paths="FO_Paths", Consts="FO_Consts", Tmpls="FO_Tmpls",
                     Fns="None0", Bodies="FO_Bodies", DispVals="NoSeq", Preds="FO_Preds", Presets="None0",
@@ -141,6 +149,9 @@ def write_cfg(path, fam, tier, roots_def, invariants, emit, max_nodes, min_nodes
     lines.append("  MaxNodes = %d" % max_nodes)
     lines.append("  MinNodes = %d" % min_nodes)
     lines.append("  RequireComplete = %s" % ("FALSE" if sim else "TRUE"))
+    lines.append("  KeepHist = %s" % ("TRUE" if f.get("hist") else "FALSE"))
+    lines.append("  MaxHist = %d" % f.get("hist", 1))
+    lines.append("  LateRegister = %s" % ("TRUE" if f.get("hist") else "FALSE"))
     lines.append("  Sharing = %s" % ("TRUE" if (f["sharing"] if sharing is None else sharing) else "FALSE"))
     lines.append('  Family = "%s"' % fam)
     lines.append("VIEW MCView")
